@@ -859,10 +859,13 @@ class SCFG2ASTTransformer:
         if type(block) is PythonASTBlock:
             if len(block.jump_targets) == 2:
                 test: ast.expr
-                if type(block.tree[-1]) in (ast.Name, ast.Compare):
-                    test = cast(ast.expr, block.tree[-1])
-                else:
+                if type(block.tree[-1]) is ast.Expr:
+                    # An expression statement (emitted for the for-loop
+                    # header), the test is the expression it wraps.
                     test = cast(ast.Expr, block.tree[-1]).value
+                else:
+                    # Any other test was emitted as a bare expression.
+                    test = cast(ast.expr, block.tree[-1])
                 body: list[ast.stmt] = cast(
                     list[ast.stmt],
                     self.codegen(self.lookup(block.jump_targets[0])),
